@@ -76,11 +76,11 @@ pub struct CidCalculationError { pub x: u8 }
 pub fn value_to_json_cid(value: &Vec<JValue>) -> (r: Result<CID<Vec<JValue>>, CidCalculationError>)
     ensures r is Ok
 { unimplemented!() }
-pub struct ImmutableValue<'i> { pub ph: PhantomData<&'i u8> }
-pub struct CallOutputValue<'i> { pub ph: PhantomData<&'i u8> }
+pub struct ImmutableValue<'i> { pub opaque_payload: u64, pub ph: PhantomData<&'i u8> }
+pub struct CallOutputValue<'i> { pub opaque_payload: u64, pub ph: PhantomData<&'i u8> }
 pub mod ast { pub use super::{ImmutableValue, CallOutputValue}; }
 // the raw instruction: only rendered into an error message
-pub struct Call<'i> { pub ph: PhantomData<&'i u8> }
+pub struct Call<'i> { pub opaque_payload: u64, pub ph: PhantomData<&'i u8> }
 impl<'i> Call<'i> {
     #[verifier::external_body]
     pub fn to_string(&self) -> String { unimplemented!() }
@@ -174,7 +174,7 @@ impl ExecutionError {
 }
 
 // ---------------------------------------------------------------- shim: the context's sub-objects (trusted, opaque)
-pub struct Scalars<'i> { pub ph: PhantomData<&'i u8> }
+pub struct Scalars<'i> { pub opaque_payload: u64, pub ph: PhantomData<&'i u8> }
 pub struct Streams { pub x: u8 }
 pub struct StreamMaps { pub x: u8 }
 pub struct LastErrorDescriptor { pub x: u8 }
@@ -453,10 +453,10 @@ impl<'i> ResolvedCall<'i> {
 }
 
 // ---------------------------------------------------------------- canon_utils/mod.rs (C19.V2)
-pub struct ResolvableToPeerIdVariable<'i> { pub ph: PhantomData<&'i u8> }
+pub struct ResolvableToPeerIdVariable<'i> { pub opaque_payload: u64, pub ph: PhantomData<&'i u8> }
 // real: `dyn Fn(..)` type aliases of canon_utils; the lifted functions only pass them on
-pub struct CanonEpilogClosure<'c> { pub ph: PhantomData<&'c u8> }
-pub struct CreateCanonStreamClosure<'c> { pub ph: PhantomData<&'c u8> }
+pub struct CanonEpilogClosure<'c> { pub opaque_payload: u64, pub ph: PhantomData<&'c u8> }
+pub struct CreateCanonStreamClosure<'c> { pub opaque_payload: u64, pub ph: PhantomData<&'c u8> }
 // the peer a canon is addressed to: a function of the variable and the (read-only) context
 pub uninterp spec fn resolved_peer(peer_id: ResolvableToPeerIdVariable, exec_ctx: ExecutionCtx) -> ExecutionResult<String>;
 #[verifier::external_body]
